@@ -76,13 +76,14 @@ type delivery struct {
 }
 
 type world struct {
-	fl      noderig.Flavour
-	fx      *noderig.Fixture
-	nodes   []*noderig.Node
-	initial []*kdb.DB
-	an      *noderig.AccessNode
-	ids     [][]byte
-	coeffs  string
+	fl           noderig.Flavour
+	fx           *noderig.Fixture
+	nodes        []*noderig.Node
+	initial      []*kdb.DB
+	an           *noderig.AccessNode
+	anDeliveries int
+	ids          [][]byte
+	coeffs       string
 }
 
 func newWorld(ctx context.Context, rnd *hx.Rand, fl noderig.Flavour, n, t, nids int) (*world, error) {
@@ -171,9 +172,9 @@ var _ = eonkeys.Order
 // become pending for all other nodes.
 type plan struct {
 	prerelease bool // an earlier release of the first identity alone has completed everywhere
-	triggered []int
-	lose      map[[2]int]bool // (to, from) share delivery that never arrives
-	dupEvery  int             // every dupEvery-th delivery is delivered twice (0: never)
+	triggered  []int
+	lose       map[[2]int]bool // (to, from) share delivery that never arrives
+	dupEvery   int             // every dupEvery-th delivery is delivered twice (0: never)
 }
 
 func (r *runner) run(ctx context.Context, w *world, p plan, pick func(n int) int) bool {
@@ -267,6 +268,21 @@ func (r *runner) run(ctx context.Context, w *world, p plan, pick func(n int) int
 		}
 		for rep := 0; rep < times; rep++ {
 			if d.to < 0 {
+				// the chain sync of the access node goes on meanwhile: a successor configuration is announced ahead
+				// of its activation block (set first, its eon key later), and an initial sync also hands over
+				// the configuration before the active one
+				w.anDeliveries++
+				switch w.anDeliveries % 7 {
+				case 2:
+					_ = w.an.AnnounceOther(w.fx, w.fx.ConfigIndex+1, w.fx.ActivationBlock+1000, false)
+					schedule = append(schedule, "accessnode: successor keyper set announced")
+				case 4:
+					_ = w.an.AnnounceOther(w.fx, w.fx.ConfigIndex+1, w.fx.ActivationBlock+1000, true)
+					schedule = append(schedule, "accessnode: successor keyper set and eon key announced")
+				case 6:
+					_ = w.an.AnnounceOther(w.fx, w.fx.ConfigIndex-1, 0, true)
+					schedule = append(schedule, "accessnode: preceding keyper set and eon key synced")
+				}
 				res := w.an.DeliverMsg(ctx, d.msg)
 				schedule = append(schedule, fmt.Sprintf("accessnode<-keys(%d)", d.from))
 				r.res.Evaluations++
